@@ -653,6 +653,9 @@ func c15(c *core.Ctx) {
 	c15Div(c, netClosure)
 	c15OpenDecode(c)
 
+	c.Clause("C15.11", "no lock of the network layer is kept: a mutex field a function locks is unlocked (or its unlock deferred) before every return and before its loop comes round again")
+	c.Run("locks-released", func() { c15LocksReleased(c) })
+
 	c.NotDecidedf("bounds and nil checks the rules above do not prove: slicing with variable bounds (e.g. ecies.Decrypt's c[:rLen], the rlp decoder's internal buffers), indexing, nil dereference of decoded pointers, integer division by zero, nil-map writes")
 	c.NotDecidedf("CPU exhaustion (e.g. respBlocks over a 4-billion range), memory held by many small well-formed messages, goroutine leaks")
 	c.NotDecidedf("deadlocks other than lock re-entry (waiting on channels, lock-order inversions across packages outside C19's scope)")
